@@ -195,6 +195,19 @@ FILE* __wrap_fopen(const char* path, const char* mode) {
     } else S->fopen_r++;
     return __real_fopen(path, mode);
 }
+// a read that delivers less than the file size announced (I/O error in the middle, file shrank, size over-reported): the translator has to
+// give up with a diagnostic, not parse a partly filled or already released buffer
+extern "C" size_t __real_fread(void*, size_t, size_t, FILE*);
+extern "C" size_t __wrap_fread(void* buf, size_t sz, size_t n, FILE* f) {
+    if (!sim::in_sut() || !sim::active()) return __real_fread(buf, sz, n, f);
+    int e = fault_for("fread");
+    if (!e) return __real_fread(buf, sz, n, f);
+    S->io_faults++; count_fault(F_SHORT_READ);
+    size_t total = sz * n, give = total > 1 ? total / 2 : 0;
+    size_t got = give ? __real_fread(buf, 1, give, f) : 0;
+    errno = e;
+    return sz ? got / sz : 0;
+}
 int __wrap_fclose(FILE* f) {
     if (!sim::in_sut() || !sim::active()) return __real_fclose(f);
     sim::yield(Y_IO, 2);
@@ -409,7 +422,7 @@ static Plan make_plan(const std::string& prop, uint64_t root, uint64_t idx, bool
     }
     if (prop == "C10" && !g_sweep && p.trunc < 0 && r.below(3) == 0) {
         // an output file that cannot be opened or whose close fails: the run may fail, it must stay memory-safe
-        IoFault f; f.call = r.below(2) ? "fopen" : "fclose"; f.nth = 1 + (int)r.below(12); static const int errs[] = {ENOSPC, EMFILE, EIO, EACCES}; f.err = errs[r.below(4)];
+        IoFault f; uint32_t c3 = r.below(5); f.call = c3 < 2 ? "fopen" : c3 < 4 ? "fclose" : "fread"; f.nth = f.call == "fread" ? 1 + (int)r.below(2) : 1 + (int)r.below(12); static const int errs[] = {ENOSPC, EMFILE, EIO, EACCES}; f.err = f.call == "fread" ? EIO : errs[r.below(4)];
         p.faults.push_back(f);
     }
     if (prop == "C20" && r.below(3) == 0) {
